@@ -95,6 +95,34 @@ def dependency_of(spec, d):
     return Dependency(fam, params=par)
 
 
+import contextlib
+
+
+@contextlib.contextmanager
+def grid_params(params):
+    """the public discretisation (Params.p_lboundary, p_hboundary, steps, p_values) set to another grid, and ALWAYS set back"""
+    _, _, _, Params = _mods()
+    if not params:
+        yield
+        return
+    old = (Params.p_lboundary, Params.p_hboundary, Params.steps, Params.p_values)
+    try:
+        pl, ph, steps = params
+        Params.p_lboundary, Params.p_hboundary, Params.steps = pl, ph, steps
+        Params.p_values = np.linspace(pl, ph, steps)
+        yield
+    finally:
+        Params.p_lboundary, Params.p_hboundary, Params.steps, Params.p_values = old
+
+
+def run_mixed(case, *a, **k):
+    with grid_params(case.get("params")):
+        out = _run_mixed(case, *a, **k)
+        _, _, _, Params = _mods()
+        out["pv"] = [float(p) for p in Params.p_values]
+        return out
+
+
 def roundtrip(obj, how):
     import copy, pickle
     if how == "copy":
@@ -106,7 +134,7 @@ def roundtrip(obj, how):
     return obj
 
 
-def run_mixed(case, seed_override=None, dep_obj=None, inputs_via=None):
+def _run_mixed(case, seed_override=None, dep_obj=None, inputs_via=None):
     mixed_up, Staircase, convert_pbox, Params = _mods()
     vars_ = [build_input(s) for s in case["inputs"]]
     if inputs_via:
@@ -264,7 +292,7 @@ def gen_cases(ctx):
     ]
     for inputs, e, cf, method, kw in thin_cases:
         add("thin", inputs, e, cf, method, **kw)
-    for _ in range(ctx.scale(10, 100)):
+    for _ in range(ctx.scale(6, 100)):
         d = rng.choice([1, 2, 3])
         inputs = [rng.choice(thinI) if (j == 0 or rng.random() < 0.3) else rand_input(rng.choice(["I", "P", "D"])) for j in range(d)]
         rng.shuffle(inputs)
@@ -327,7 +355,7 @@ def gen_cases(ctx):
     small_inputs = [("P", "normal", (1.0, 2.0), (0.5, 1.0)), ("I", 1.0, 5.0), ("D", "uniform", (1.0, 2.0))]
     small_fns = {1: ("add", ("mul", ("c", 3), ("v", 0)), ("c", 1)), 2: lin2, 3: three}
     for d in (1, 2, 3):
-        for n in (0, 1, 2, 3):
+        for n in ((0, 1, 2, 3) if d < 3 else ctx.scale((2,), (0, 1, 2, 3))):
             for st in ("direct", "endpoints"):
                 for rot in (range(3) if (d == 1 and n >= 1) else ((n + d) % 3,)):     # a single input: every kind of input
                     inputs = [small_inputs[(rot + j) % 3] for j in range(d)]
@@ -339,7 +367,7 @@ def gen_cases(ctx):
         add("small", [inp], small_fns[1], ("direct", None, None), "slicing", k=4)
         add("small", [inp], small_fns[1], ("endpoints", None, None), "imc", n_sam=5, seed=0, dep=None)
     # slice counts at the equalities with the 200-level grid (levels on the grid points, between them, one more, two fewer)
-    for k in (198, 199, 200, 201):
+    for k in ctx.scale((199, 200), (198, 199, 200, 201)):
         add("grid-sizes", [("P", "normal", (0.0, 1.0), (1.0, 1.5))], one, ("direct", None, None) if k % 2 else ("endpoints", None, None), "slicing", k=k)
     # magnitudes: power-of-two and decimal scalings of intervals and precise distributions, degree-one response
     lin = ("sub", ("mul", ("c", 2), ("v", 0)), ("v", 1))
@@ -350,14 +378,26 @@ def gen_cases(ctx):
     add("falsy", [("P", "normal", (0.0, 1.0), (1.0, 1.0)), ("I", 0.0, 0.0)], lin2, ("endpoints", None, None), "imc", n_sam=9, seed=0, dep=("gaussian", 0.0, "pos"))
     add("falsy", [("I", 0.0, 0.0), ("D", "gaussian", (0.0, 1.0))], lin, ("subinterval", "endpoints", 0), "imc", n_sam=9, seed=0, dep=("gaussian", 0.0, "kw"), via="MixedPropagation")
     add("falsy", [("I", 0.0, 0.0), ("P", "uniform", (0.0, 0.0), (1.0, 2.0))], lin, ("direct", None, None), "slicing", k=3)
+    # the public discretisation changed (and set back): other boundaries, other numbers of steps
+    pg_inputs = [("P", "normal", (0.0, 1.0), (1.0, 1.5)), ("D", "gaussian", (1.0, 0.5))]
+    for j, prm in enumerate([(0.05, 0.95, 200), (0.05, 0.95, 100), (0.001, 0.999, 40), (0.01, 0.99, 300)]):
+        add("params-grid", pg_inputs, lin2, (("direct", None, None), ("endpoints", None, None))[j % 2], "slicing", k=3 + j, params=prm)
+        add("params-grid", [("P", "uniform", (0.0, 1.0), (2.0, 3.0)), ("I", 1.0, 2.0)], lin, ("subinterval", "endpoints", 2), "imc",
+            n_sam=9, seed=5 + j, dep=("gaussian", 0.5, "kw") if j % 2 else None, params=prm)
+    add("params-grid", pg_inputs, lin2, ("direct", None, None), "slicing", k=4)       # the default grid again, after the changes
+    # N a multiple of 1000: the lowest grid level 0.001 coincides exactly with the cumulated mass 1/N * (N/1000)
+    add("coincidence", [("P", "normal", (0.0, 1.0), (1.0, 1.5)), ("D", "gaussian", (1.0, 0.5)), ("P", "uniform", (0.0, 1.0), (2.0, 3.0))], three,
+        ("direct", None, None), "slicing", k=10)
+    add("coincidence", [("P", "normal", (0.0, 1.0), (1.0, 1.5)), ("D", "uniform", (1.0, 3.0))], lin2, ("direct", None, None), "imc",
+        n_sam=ctx.scale(125, 1000), seed=12, dep=None, light=True)       # 25/125 = 0.2 is not a level, 1000 in the thorough tier
     # sequences: different response functions with one __qualname__ on the same inputs, one after the other
     seq_inputs = [("P", "normal", (0.0, 1.0), (1.0, 1.0)), ("I", 1.0, 2.0)]
     for fstyle in ("closure", "lambda"):
-        for e in (lin2, ("mul", ("v", 0), ("v", 1)), ("sub", ("mul", ("c", 3), ("v", 1)), ("v", 0)), ("add", ("v", 0), ("v", 1))):
+        for e in (lin2, ("mul", ("v", 0), ("v", 1)), ("sub", ("mul", ("c", 3), ("v", 1)), ("v", 0))):
             add("sequence", seq_inputs, e, ("endpoints", None, None), "slicing", k=3, fstyle=fstyle)
             add("sequence", seq_inputs, e, ("subinterval", "endpoints", 2), "imc", n_sam=5, seed=17, dep=None, fstyle=fstyle)
-    n_s = ctx.scale(34, 350)
-    n_i = ctx.scale(34, 350)
+    n_s = ctx.scale(28, 350)
+    n_i = ctx.scale(28, 350)
     for which, count in (("slicing", n_s), ("imc", n_i)):
         made = 0
         tries = 0
@@ -479,7 +519,11 @@ def run(ctx: core.Check, cases=None):
     outs = []
     for c in cases:
         o = run_mixed(c)
-        c["_arrays"] = [pbox_arrays(s) for s in c["inputs"]]
+        with grid_params(c.get("params")):
+            c["_arrays"] = [pbox_arrays(s) for s in c["inputs"]]
+        c["_pv"] = [F(p) for p in o["pv"]]
+        c["_pvtok"] = ql(o["pv"])
+        c["_bounds"] = (c["params"][0], c["params"][1]) if c.get("params") else (Params.p_lboundary, Params.p_hboundary)
         outs.append(o)
     # ---- model ---------------------------------------------------------------------------------------
     def mk_req(i, tab):
@@ -488,16 +532,16 @@ def run(ctx: core.Check, cases=None):
         vtok = "|".join(ql(l) + "|" + ql(r) for l, r in c["_arrays"])
         s, st, n = c["cf"]
         if c["method"] == "slicing":
-            grid = sorted(set(o["alphas"])) if o["alphas"] else [float(v) for v in np.linspace(Params.p_lboundary, Params.p_hboundary, c["k"])]
+            grid = sorted(set(o["alphas"])) if o["alphas"] else [float(v) for v in np.linspace(c["_bounds"][0], c["_bounds"][1], c["k"])]
             mode, lv = "slice", ql(grid)
         else:
             rows = o["levels"] if o["levels"] is not None else np.array(o["alphas"]).reshape(-1, d)
             mode, lv = "imc", ql([float(v) for v in np.asarray(rows).ravel()])
-        return (f"mix {mode} {pv_tok} {vtok} {lv} {s} {st or 'none'} {n if n is not None else 'none'} "
+        return (f"mix {mode} {c['_pvtok']} {vtok} {lv} {s} {st or 'none'} {n if n is not None else 'none'} "
                 f"{X.wire_expr(c['e'])} {tab}")
 
     replies = X.model_with_needs("C14", mk_req, len(cases))
-    grid_reqs = [f"grid {q(Params.p_lboundary)} {q(Params.p_hboundary)} {c['k']}" for c in cases if c["method"] == "slicing"]
+    grid_reqs = [f"grid {q(c['_bounds'][0])} {q(c['_bounds'][1])} {c['k']}" for c in cases if c["method"] == "slicing"]
     grid_reps = iter(core.model_batch("C14", grid_reqs))
 
     for c, o, rep in zip(cases, outs, replies):
@@ -536,7 +580,7 @@ def run(ctx: core.Check, cases=None):
                 if len(ml) != len(impl[1]) or len(mr) != len(impl[2]):
                     bad = "length"
                 else:
-                    for i, p in enumerate(pv):
+                    for i, p in enumerate(c["_pv"]):
                         x = p * N
                         if abs(x - round(x)) <= F(1, 10 ** 6):
                             continue        # a grid level on k/N: binary64 cumsum may fall on either side (C08)
@@ -561,13 +605,32 @@ def run(ctx: core.Check, cases=None):
             else:
                 ctx.tie_bad(c["stream"], cj(c, what="grid"), ig[:6], g[:200])
         # ---------------- oracle ----------------
-        oracle(ctx, c, o, pv, tol)
+        oracle(ctx, c, o, c["_pv"], tol)
         if (len(ctx.samples) + ctx.evaluations) % 40 == 0:
             verify_kept(ctx, cases[:len(outs)], outs)
         if len(ctx.samples) < 6 and impl[0] == "ok":
             ctx.sample(cj(c, n_focal=len(o["focal"] or []), focal_head=[list(f) for f in (o["focal"] or [])[:3]],
                           support=[float(impl[1][0]), float(impl[2][-1])]))
     verify_kept(ctx, cases, outs)
+    # floating-point errors raise and warnings are errors: the same p-box or an exception, never another value; and afterwards
+    # the default settings give the recorded result again
+    import warnings as _w
+    picked = [(c, o) for c, o in zip(cases, outs) if o["res"][0] == "ok" and c["stream"] in ("small", "thin", "api-layer", "params-grid", "scaled")][::7][:ctx.scale(10, 60)]
+    for c, o in picked:
+        with np.errstate(all="raise"), _w.catch_warnings():
+            _w.simplefilter("error")
+            o6 = run_mixed(c)
+        ctx.evaluations += 1
+        r6 = o6["res"]
+        if r6[0] == "ok" and not (np.array_equal(r6[1], o["res"][1]) and np.array_equal(r6[2], o["res"][2])):
+            ctx.fail(feat(c, "differs-under-strict-fp"), cj(c), "under np.errstate(all='raise') and warnings as errors the call returns a DIFFERENT p-box")
+        elif r6[0] != "ok":
+            ctx.bump("strict-fp:raised")
+    for c, o in picked[:3]:
+        o7 = run_mixed(c)
+        ctx.evaluations += 1
+        if o7["res"][0] != "ok" or not (np.array_equal(o7["res"][1], o["res"][1]) and np.array_equal(o7["res"][2], o["res"][2])):
+            ctx.fail(feat(c, "state-not-restored"), cj(c), "after the strict floating-point runs the default settings no longer give the recorded p-box")
 
 
 def verify_kept(ctx, cases, outs):
@@ -751,7 +814,7 @@ def oracle(ctx, c, o, pv, tol):
                 ft = feat(c, "changed-by-" + how)
                 ft["copied"] = "inputs"
                 ctx.fail(ft, cj(c, copied="inputs", how=how), f"slicing with the input objects passed through {how} gives a different p-box")
-        ref = np.linspace(0.001, 0.999, k)
+        ref = np.linspace(c["_bounds"][0], c["_bounds"][1], k)
         if len(grid) == k and any(abs(a - b) > 1e-12 for a, b in zip(grid, ref)):
             ctx.fail(feat(c, "grid-levels"), cj(c, grid=grid[:5]), "slicing levels are not equally spaced between the probability boundaries")
     else:
@@ -778,6 +841,8 @@ def oracle(ctx, c, o, pv, tol):
                              f"the probability levels used are not the sample of the given dependency structure for the given seed ({name})")
                     break
         # reproducibility: same seed and dependency -> identical p-box and levels
+        if c.get("light"):
+            return _oracle_tail(ctx, c, o, pv, tol, left, right, focal, arrays, s, st, n, d)
         kwb = c["dep"] is not None and (c["dep"][0] == "t" or (len(c["dep"]) > 2 and c["dep"][2] in ("kw", "matrix")))
         full = c["stream"] in ("extreme-levels", "witness", "entry-point", "falsy") or (c["stream"] == "api-layer" and kwb and c.get("via"))
         o2 = run_mixed(c) if (full or c["seed"] % 2 == 0 or o.get("dep_obj") is None or isinstance(o.get("dep_obj"), str)) else o      # the other half repeats on the SAME Dependency object below
@@ -825,6 +890,10 @@ def oracle(ctx, c, o, pv, tol):
             o3 = run_mixed(c, seed_override=c["seed"] + 1)
             if o3["levels"] is not None and lv is not None and np.array_equal(o3["levels"], lv):
                 ctx.fail(feat(c, "seed-ignored"), cj(c), "a different seed gives the same probability levels")
+    return _oracle_tail(ctx, c, o, pv, tol, left, right, focal, arrays, s, st, n, d)
+
+
+def _oracle_tail(ctx, c, o, pv, tol, left, right, focal, arrays, s, st, n, d):
     # 3. support inside the interval image of the supports
     sup = [(l[0], r[-1]) for l, r in arrays]
     img, _ = X.run_b2b(c["e"], sup, "L", "direct", None, None)
@@ -856,14 +925,20 @@ def oracle(ctx, c, o, pv, tol):
     N = len(focal)
     los = sorted(f[1] for f in focal)
     his = sorted(f[2] for f in focal)
+    if len(left) != len(pv) or len(right) != len(pv):
+        ctx.fail(feat(c, "wrong-number-of-steps"), cj(c, steps=len(left), configured=len(pv)),
+                 f"the returned p-box has {len(left)} steps, the configured probability grid has {len(pv)} levels")
+        return
+    cum = np.cumsum(np.repeat(1 / N, N))        # the binary64 cumulated masses of N equal weights (what decides at an exact tie)
     for arr, srt, name in ((left, los, "left"), (right, his, "right")):
         for i, p in enumerate(pv):
             x = p * N
             j = min(max(1, math.ceil(x)), N)
             if abs(x - round(x)) <= F(1, 10 ** 6):
-                cand = {srt[min(max(t, 1), N) - 1] for t in (j - 1, j, j + 1)}
-            else:
-                cand = {srt[j - 1]}
+                # a grid level on (or within rounding of) a cumulated mass m/N: the generalised inverse takes the FIRST step whose
+                # cumulated mass reaches the level, decided on the binary64 values
+                j = min(int(np.searchsorted(cum, float(p), side="left")) + 1, N)
+            cand = {srt[j - 1]}
             if float(arr[i]) not in cand:
                 ctx.fail(feat(c, "not-equal-weight-stack"), cj(c, side=name, index=i, value=float(arr[i]), expected_rank=j, N=N),
                          f"{name}[{i}] = {float(arr[i])} is not the rank-{j} of the {N} focal {name} endpoints "
